@@ -502,6 +502,9 @@ TARGETS = {
     "SrcToken": ("token.py", translate_sys.translate_token),
     "SrcStochParse": ("stochastic.py", translate_sys.translate_stochparse),
     "SrcSysParse": ("system.py", translate_sys.translate_sysparse),
+    "SrcMolParse": ("molecule.py", translate_sys.translate_molparse),
+    "SrcDescrPrint": ("bond.py", translate_sys.translate_descrprint),
+    "SrcPrint": ("token.py", translate_sys.translate_printers),
     "SrcAttach": ("mol_gen.py", translate_sys.translate_attach),
     "SrcRGraph": ("molecule.py", translate_sys.translate_rgraph),
     "SrcCore": ("core.py", translate_sys.translate_core),
